@@ -214,6 +214,11 @@ class Check:
         ev["coverage"]["leads"] = [dict(key=k, **v) for k, v in list(self.leads.items())[:40]]
         ev["coverage"]["inconclusive"] = self.inconclusive
         if self.violations:
+            classes = {}
+            for k in self.violations:
+                c = "|".join(f for f in k.split("|") if not f.startswith("x="))
+                classes[c] = classes.get(c, 0) + 1
+            ev["coverage"]["violation_classes"] = dict(sorted(classes.items(), key=lambda kv: -kv[1])[:300])
             ev["coverage"]["violation_keys"] = [
                 {"key": k, "count": self.viol_count[k], "detail": v} for k, v in list(self.violations.items())[:50]]
         if not ev["coverage"]["samples"]:
